@@ -18,12 +18,13 @@ META = {
         "BaseException failure, SIGINT to the main thread, KeyboardInterrupt raised in an asyncio or thread "
         "payload, shutdown() from an outside thread or a thread payload, MetaRunner.stop()} x populations of "
         "0-6 coroutine payloads per flavour (sleeping, spinning on zero-length sleeps, blocked, waiting on an awaitable nobody else references - with a forced garbage collection before the trigger -, adopted a few "
-        "statements before the trigger, adopted from other payloads, adopted by a payload's own cleanup while the runtime terminates (hand-over chains 1-3 deep), adopted one per loop turn by dispatcher payloads that are still busy at the trigger, services; cleanup none / synchronous 0-30 ms / "
+        "statements before the trigger, adopted from other payloads, adopted by a payload's own cleanup while the runtime terminates (hand-over chains 1-3 deep), adopted one per loop turn by dispatcher payloads that are still busy at the trigger, services; cleanup none / synchronous 0-30 ms / stubborn (absorbs 1-3 cancellations before giving up) / for asyncio a finally block awaiting 1-5 zero-length steps / "
         "trio-shielded 0-300 ms) x 0-3 blocked thread payloads x trigger time jitter x line-level delay injection. "
         "Non-trivial = at least one coroutine payload was running at the trigger; distinct by scenario shape."
     ),
     "assumptions": [
-        "asyncio cleanup means synchronous finally code (the runner re-cancels asyncio tasks every 0.1 s); shielded asynchronous cleanup is asserted for trio only, as the statement says",
+        "payloads that absorb cancellations (they need 2-4 of them) are registered before the termination begins: one that is adopted while the runtime already terminates (by another payload's cleanup, after the asyncio runner has finished closing) is cancelled only once, by asyncio.run's own finalisation, which then waits for it forever - observed on the unchanged tree (replay of seed 1, shard 11), asyncio's documented behaviour for tasks that swallow CancelledError, not claimed as a finding",
+        "asyncio cleanup means synchronous finally code, or a finally block awaiting a few zero-length steps (the runner re-cancels asyncio tasks every 0.1 s, so longer asynchronous cleanup is legitimately interrupted); an interruption is only reported for terminations that do not abort the event loop (failures, returns, shutdown, stop: after SIGINT, KeyboardInterrupt and SystemExit asyncio.run's own finalisation cancels every task once more - observed), when it came less than 50 ms after the first cancellation and reproduces in 3 of 3 runs; shielded asynchronous cleanup is asserted for trio only, as the statement says",
         "'the run ends' is restated as: accept ends within 8 s of the trigger (normal < 0.6 s)",
         "stragglers are listened for during 0.4 s after the call ended",
     ],
@@ -45,6 +46,7 @@ def coroutine_payload(rnd, pid, flavour):
     kinds = [{"kind": "none"}, {"kind": "sync", "dur": rnd.choice([0.0, 0.005, 0.03])}]
     if flavour == "trio":
         kinds += [{"kind": "shielded", "dur": rnd.choice([0.0, 0.02, 0.1, 0.3])}] * 2
+    kinds += [{"kind": "absorb", "times": rnd.choice([1, 1, 2, 3])}]  # has to be cancelled several times
     return {"id": pid, "flavour": flavour, "program": program, "cleanup": rnd.choice(kinds)}
 
 
@@ -64,6 +66,8 @@ def gen_case(rnd, spec):
             how = rnd.choice(["queued", "running", "running", "late", "carried", "service"])
             if meta_mode and how == "service":
                 how = "running"
+            if how == "carried" and p["cleanup"]["kind"] == "absorb":
+                how = "running"  # see the assumption on stubborn payloads: registered before the termination begins
             if how == "queued":
                 p["when"] = "queued"
                 gen["payloads"].append(p)
@@ -85,21 +89,30 @@ def gen_case(rnd, spec):
                                         "create": rnd.choice(["before", "before", "after"])})
                 if gen["services"][-1]["create"] == "after":
                     script.append(["service", p["id"]])
+    # asyncio payloads whose finally block awaits a few zero-length steps: far shorter than the 0.1 s after which the
+    # runner cancels again, so it completes - provided no other asyncio payload blocks the loop meanwhile
+    async_mode = rnd.random() < 0.2
+    if async_mode:
+        for p in gen["payloads"] + gen["services"]:
+            if p["flavour"] == "asyncio" and not p["id"].startswith("carrier"):
+                p["cleanup"] = rnd.choice([{"kind": "async", "steps": rnd.randint(1, 5)}, {"kind": "async", "steps": 1}, {"kind": "none"}])
     # hand-over chains: a payload that adopts a successor from its cleanup, i.e. while terminating
-    for c in range(rnd.choice([0, 0, 1, 1, 2])):
+    for c in range(0 if async_mode else rnd.choice([0, 0, 1, 1, 2])):
         depth = rnd.randint(1, 3)
         ids = ["h%d_%d" % (c, d) for d in range(depth + 1)]
         for d, hid in enumerate(ids):
             flavour = rnd.choice(["asyncio", "asyncio", "trio"])
             p = coroutine_payload(rnd, hid, flavour)
             p["program"] = rnd.choice([[["beat", 0.01, None]], [["block"]], [["sleep", 30]]])
+            if p["cleanup"]["kind"] == "absorb" and d > 0:
+                p["cleanup"] = {"kind": "none"}
             if d < depth:
                 p["handover"] = ids[d + 1]
             if d == 0:
                 p["when"] = "queued"
             gen["payloads"].append(p)
     # dispatchers: payloads that adopt one short-lived worker per loop turn, still busy when the trigger fires
-    for d in range(rnd.choice([0, 0, 1, 3])):
+    for d in range(0 if async_mode else rnd.choice([0, 0, 1, 3])):
         fl = rnd.choice(["asyncio", "asyncio", "trio"])
         gen["payloads"].append({"id": "disp%d" % d, "flavour": fl, "when": "queued", "cleanup": {"kind": "none"},
                                 "program": [["dispatch", rnd.choice(["asyncio", "asyncio", "trio"]), 3000], ["beat", 0.02, None]]})
@@ -130,10 +143,13 @@ def gen_case(rnd, spec):
         script.append(["stop"])
     script.append(["expect_end", 8.0])
     gen["script"] = script
-    return {"watchdog": 30, "inject": common.inject_conf(rnd, 0.7), "generations": [gen], "meta": {"trigger": trigger, "meta_runner": meta_mode}}
+    inject = common.inject_conf(rnd, 0.7)
+    if async_mode and inject:
+        inject["p_sleep"] = 0.0  # yields only: injected sleeps in the loop thread would eat the 0.1 s the cleanup has
+    return {"watchdog": 30, "inject": inject, "generations": [gen], "meta": {"trigger": trigger, "meta_runner": meta_mode}}
 
 
-def judge(case, run, result):
+def judge(case, run, result, suspects_out=None):
     trouble = common.harness_trouble(run)
     if trouble:
         result.inconc(trouble)
@@ -157,6 +173,7 @@ def judge(case, run, result):
     end_seq = ended["seq"]
     mech = None
     checked = 0
+    suspects = []
     for pid, p in specs.items():
         if p["flavour"] not in common.COROUTINE or pid == "trigger" or pid.startswith("carrier"):
             continue
@@ -179,8 +196,19 @@ def judge(case, run, result):
             what = "was never cancelled through its framework's cancellation exception"
         elif cancelled[0]["seq"] > end_seq:
             what = "was cancelled only after accept had ended"
+        elif p.get("cleanup", {}).get("kind") == "async" and not done:
+            cut = [e for e in own if e["kind"] == "cleanup-interrupted"]
+            if trigger in ("sigint", "kbint_asyncio", "kbint_thread", "systemexit_asyncio", "systemexit_thread"):
+                # these abort the event loop; asyncio.run's own finalisation then cancels every task once more
+                result.count("async_cleanups_not_judged_loop_aborted")
+            elif cut and cut[0]["after"] < 0.05:
+                # cancelled again long before the 0.1 s the runner waits between two rounds: suspicious, but a stalled
+                # loop thread could do that on a starved machine, so the scenario is repeated before anything is claimed
+                suspects.append((pid, p["cleanup"]["steps"], cut[0]["after"], cut[0]["step"]))
+            else:
+                result.count("async_cleanups_not_judged_slow_run")
         elif p.get("cleanup", {}).get("kind", "none") != "none" and (not done or done[0]["seq"] > end_seq):
-            what = "had not finished its %s cleanup (%.0f ms) when accept ended" % (p["cleanup"]["kind"], 1000 * p["cleanup"]["dur"])
+            what = "had not finished its %s cleanup (%s) when accept ended" % (p["cleanup"]["kind"], {k: v for k, v in p["cleanup"].items() if k != "kind"})
         elif late:
             what = "executed further steps (%s) after accept had ended" % sorted({e["kind"] for e in late})
         if what:
@@ -195,6 +223,10 @@ def judge(case, run, result):
                 result.count("private_waiters_cancelled_properly")
             if p.get("cleanup", {}).get("kind") == "shielded":
                 result.count("shielded_cleanups_finished_first")
+            if p.get("cleanup", {}).get("kind") == "async":
+                result.count("async_cleanups_finished_first")
+            if p.get("cleanup", {}).get("kind") == "absorb":
+                result.count("stubborn_payloads_cancelled_until_done_%s" % p["flavour"])
     # workers created on the fly by dispatchers: whoever started must have ended or been cancelled before accept ended
     workers = {}
     for e in run.events:
@@ -216,12 +248,29 @@ def judge(case, run, result):
     result.count("running_coroutine_payloads_judged", checked)
     if run.of("block-start") and not run.of("accept-still-running"):
         result.count("terminations_with_blocked_threads")
+    if suspects_out is not None:
+        suspects_out.extend(suspects)
     return problems[:4]
 
 
 def execute(case, result):
     run = common.run_and_observe(case, result)
-    return judge(case, run, result), run
+    suspects = []
+    problems = judge(case, run, result, suspects)
+    if suspects and not problems:
+        again = []
+        for _ in range(2):
+            more = []
+            judge(case, common.run_and_observe(case, result), core.Result(), more)
+            again.append({s[0] for s in more})
+        for pid, steps, after, step in suspects:
+            if all(pid in seen for seen in again):
+                problems.append(("trigger %s: the cleanup of asyncio payload %s (a finally block awaiting %d zero-length steps) was hit by a further "
+                                 "CancelledError %.1f ms after the first one, at step %d, in 3 of 3 runs of the scenario; the runner is expected "
+                                 "to leave 0.1 s between two rounds of cancellations" % (case["meta"]["trigger"], pid, steps, 1000 * after, step), None))
+            else:
+                result.count("async_cleanup_interruptions_not_reproduced")
+    return problems[:4], run
 
 
 def run_shard(spec):
@@ -242,7 +291,8 @@ def run_shard(spec):
 
 def finish(total, tier):
     need = ["running_coroutine_payloads_judged", "payloads_cancelled_and_cleaned_asyncio", "payloads_cancelled_and_cleaned_trio",
-            "shielded_cleanups_finished_first", "terminations_with_blocked_threads", "payloads_adopted_during_termination_started", "scenarios_driving_metarunner_directly", "dispatcher_workers_judged", "private_waiters_cancelled_properly"]
+            "shielded_cleanups_finished_first", "terminations_with_blocked_threads", "payloads_adopted_during_termination_started", "scenarios_driving_metarunner_directly", "dispatcher_workers_judged", "private_waiters_cancelled_properly",
+            "async_cleanups_finished_first", "stubborn_payloads_cancelled_until_done_asyncio", "stubborn_payloads_cancelled_until_done_trio"]
     need += ["trigger_" + t for t in TRIGGERS if not t.startswith("systemexit")]
     for name in need:
         if not total.counters.get(name) and not total.violations:
